@@ -59,6 +59,19 @@ CLAIMED.update({
    design="§7 C08", technique="contract-based deductive verification (field-level postconditions, ghost event logs; SMT)"),
 })
 
+CLAIMED.update({
+ "C03": dict(
+   text="Deductive proof of history independence by reduction to single-run obligations: Check empties the warning buffer before the walker runs; SetPackageInfo replaces "
+        "the whole types.Info and the package; SetFileInfo rebuilds the per-file import tables as fresh maps whenever they are required; the rule-engine run context is built "
+        "per file from the current context; and, for every checker type, each field written outside its constructor (18 scratch fields in 12 types) is fully re-initialised "
+        "before it is read within its epoch (file / function / node) - the last family is a definite-assignment obligation decided by an exhaustive data-flow over the SSA of the "
+        "type's methods, not by a solver. Command-line package order goes through the loader and is not decided.",
+   design="§7 C03", technique="contract-based deductive verification (call-site preconditions, freshness postconditions) + generator-decided reset-before-read obligations"),
+})
+CLAIMED["C15"]["text"]=("Deductive proof, for all inputs, of GoVersion.GreaterOrEqual (numeric lexicographic compare, zero value = newest), ParseGoVersion ('' / 'go' => zero value; "
+   "'M.N' / 'goM.N' decimal => {M,N}; exactly the valid strings are accepted), SetGoVersion, and of the hand-over of the target version to the rule engine "
+   "(the per-file RunContext carries ctx.GoVersion field by field). The per-rule version gates of the precompiled rules are not yet checked.")
+
 NA_REASON_PENDING = "check not built yet in this round (planned, DESIGN §7); not claimed until its obligations discharge"
 NOT_APPLICABLE = {
  "C11": "no contract within reach can state equality of Go-regexp match behaviour between a pattern and the string printed from a third-party parse tree (DESIGN §8)",
